@@ -1,32 +1,6 @@
 #pragma once
 #include <Arduino.h>
-// Mock of the HD44780 text LCD drivers: keeps DDRAM (2 x 40 bytes), an address
-// counter that auto-increments, and the row offsets of the respective real library.
-class __MockLcdBase : public Print {
- public:
-  int id;
-  int cols = 16, rows = 2;
-  int row_offsets[4] = {0x00, 0x40, 0x10, 0x50};
-  int addr = 0;
-  bool cgram_mode = false; int cgaddr = 0;
-  unsigned char ddram[128];
-  unsigned char cgram[64];
-  bool begun = false;
-  __MockLcdBase();
-  void __begin(int c, int r, const char *kind);
-  void clear();
-  void home();
-  void setCursor(uint8_t col, uint8_t row);
-  virtual int clamp_row(int row) = 0;
-  size_t write(uint8_t c) override;
-  using Print::write;
-  void createChar(uint8_t loc, uint8_t charmap[]);
-  void display(); void noDisplay();
-  void cursor() {} void noCursor() {} void blink() {} void noBlink() {}
-  void scrollDisplayLeft() {} void scrollDisplayRight() {} void autoscroll() {} void noAutoscroll() {}
-  void leftToRight() {} void rightToLeft() {}
-  void __dump();
-};
+#include <__MockLcdBase.h>
 class LiquidCrystal : public __MockLcdBase {
  public:
   LiquidCrystal(int rs, int en, int d4, int d5, int d6, int d7);
@@ -36,4 +10,3 @@ class LiquidCrystal : public __MockLcdBase {
   void begin(uint8_t c, uint8_t r, uint8_t charsize = 0);
   int clamp_row(int row) override;
 };
-void __mock_lcd_dump_all();
